@@ -382,6 +382,38 @@ pub fn push_dust(exps: &mut Vec<Exp>, cw20: bool, depth: usize) {
     }
 }
 
+/// Two vAMMs on one engine: positions, liquidations and funding settlements interleaved across both markets (per-vAMM
+/// bookkeeping: cumulative premium fractions, restriction marker, open interest, position keys).
+pub fn push_two_vamms(exps: &mut Vec<Exp>, depth: usize) {
+    let mut al = StdAlpha::basic(&T2);
+    al.n_vamms = 2;
+    al.sizes = vec![SIZE_M];
+    al.deposit = None;
+    al.withdraw = Some(3 * D);
+    al.liquidators = vec!["liq"];
+    al.rel_prices = vec![(1, 1)];
+    al.prices = vec![8 * D];
+    al.blocks = vec![15, 3900];
+    let alpha = al.acts();
+    let o = |t: &str, v: usize, buy: bool, m: u128, l: u128| Act::Open { t: t.into(), v, buy, margin: m, lev: l, limit: 0 };
+    let seed = |secs: u64| {
+        vec![
+            o("alice", 0, true, 25 * D, 10 * D),
+            o("bob", 1, true, 25 * D, 10 * D),
+            Act::blk(15),
+            o("bob", 0, false, 45 * D, D),
+            o("alice", 1, false, 45 * D, D),
+            Act::blk(secs),
+            Act::PxRel { v: 0, num: 1, den: 1 },
+        ]
+    };
+    let mut c = cfg_liq(true, true, 250_000);
+    c.n_vamms = 2;
+    let mut e = Exp::new("two vAMMs", c, alpha, vec![vec![], seed(1200), seed(3900)], depth);
+    e.traders = T2.to_vec();
+    exps.push(e);
+}
+
 /// Configuration changed mid-history: the owner's legal updates of the engine ratios and of the vAMM's fee and band
 /// settings are actions, interleaved with trades, liquidations and funding on positions opened under the old values.
 /// The oracles read the configuration in force (`World::live_cfg`).
@@ -528,6 +560,7 @@ pub fn run_c02(tier: Tier) -> i32 {
     if tier == Tier::Thorough {
         push_dust(&mut exps, false, 4);
     }
+    push_two_vamms(&mut exps, tier.pick(3, 4));
     push_cfgchange(&mut exps, tier.pick(3, 4));
     push_dec9(&mut exps, tier.pick(1, 3), false);
     run_exps(&mut run, step_c02, exps, |_| {});
@@ -577,6 +610,7 @@ pub fn run_c03(tier: Tier) -> i32 {
     if tier == Tier::Thorough {
         push_dust(&mut exps, false, 4);
     }
+    push_two_vamms(&mut exps, tier.pick(3, 4));
     push_cfgchange(&mut exps, tier.pick(3, 4));
     push_dec9(&mut exps, tier.pick(1, 3), false);
     run_exps(&mut run, step_c03, exps, |_| {});
@@ -759,6 +793,7 @@ pub fn run_c04(tier: Tier) -> i32 {
     if tier == Tier::Thorough {
         push_dust(&mut exps, false, 4);
     }
+    push_two_vamms(&mut exps, tier.pick(3, 4));
     push_cfgchange(&mut exps, tier.pick(3, 4));
     push_dec9(&mut exps, tier.pick(1, 3), false);
     run_exps(&mut run, step_c04, exps, |_| {});
@@ -860,6 +895,7 @@ pub fn run_c05(tier: Tier) -> i32 {
     }
     push_sweep(&mut exps, tier.pick(2, 3));
     push_dust(&mut exps, true, tier.pick(3, 4));
+    push_two_vamms(&mut exps, tier.pick(3, 4));
     push_cfgchange(&mut exps, tier.pick(3, 4));
     push_dec9(&mut exps, tier.pick(1, 3), true);
     run_exps(&mut run, step_c05, exps, |_| {});
@@ -1032,6 +1068,7 @@ pub fn run_c06(tier: Tier) -> i32 {
     }
     push_sweep(&mut exps, tier.pick(2, 3));
     push_dust(&mut exps, true, tier.pick(3, 4));
+    push_two_vamms(&mut exps, tier.pick(3, 4));
     push_cfgchange(&mut exps, tier.pick(3, 4));
     push_dec9(&mut exps, tier.pick(1, 3), true);
     run_exps(&mut run, step_c06, exps, |_| {});
@@ -1100,6 +1137,7 @@ pub fn run_c07(tier: Tier) -> i32 {
     }
     push_sweep(&mut exps, tier.pick(2, 3));
     push_dust(&mut exps, true, tier.pick(3, 4));
+    push_two_vamms(&mut exps, tier.pick(3, 4));
     push_cfgchange(&mut exps, tier.pick(3, 4));
     push_dec9(&mut exps, tier.pick(1, 3), false);
     run_exps(&mut run, step_c07, exps, |_| {});
@@ -1235,6 +1273,7 @@ pub fn run_c08(tier: Tier) -> i32 {
     }
     push_sweep(&mut exps, tier.pick(1, 2));
     push_dust(&mut exps, true, tier.pick(3, 4));
+    push_two_vamms(&mut exps, tier.pick(3, 4));
     push_cfgchange(&mut exps, tier.pick(3, 4));
     push_dec9(&mut exps, tier.pick(1, 3), false);
     run_exps(&mut run, step_c08, exps, |_| {});
@@ -1276,6 +1315,7 @@ pub fn run_c11(tier: Tier) -> i32 {
     }
     push_sweep(&mut exps, tier.pick(2, 3));
     push_dust(&mut exps, true, tier.pick(3, 4));
+    push_two_vamms(&mut exps, tier.pick(3, 4));
     push_cfgchange(&mut exps, tier.pick(3, 4));
     push_dec9(&mut exps, tier.pick(1, 3), false);
     run_exps(&mut run, step_c11, exps, |_| {});
@@ -1324,6 +1364,7 @@ pub fn run_c12(tier: Tier) -> i32 {
     if tier == Tier::Thorough {
         push_dust(&mut exps, false, 4);
     }
+    push_two_vamms(&mut exps, tier.pick(3, 4));
     push_cfgchange(&mut exps, tier.pick(3, 4));
     push_dec9(&mut exps, tier.pick(1, 3), false);
     run_exps(&mut run, step_c12, exps, |_| {});
